@@ -1721,18 +1721,20 @@ impl<'input, T: Input> Scanner<'input, T> {
         // ```
         if self.input.next_is_z() {
             let contents = match chomping {
-                // We strip trailing linebreaks. Nothing remain.
-                Chomping::Strip => String::new(),
-                // There was no newline after the chomping indicator.
-                _ if self.mark.line == start_mark.line() => String::new(),
-                // We clip lines, and there was a newline after the chomping indicator.
-                // All other breaks are ignored.
-                Chomping::Clip => chomping_break,
-                // We keep lines. There was a newline after the chomping indicator but nothing
-                // else.
-                Chomping::Keep if trailing_breaks.is_empty() => chomping_break,
-                // Otherwise, the newline after chomping is ignored.
-                Chomping::Keep => trailing_breaks,
+                // We keep lines, and there was a newline after the chomping indicator: the scalar
+                // is made of one line break per empty line that follows the header. The newline
+                // after the header itself is not content. A last line made of spaces only and
+                // not terminated by a line break counts as an empty line too.
+                Chomping::Keep if self.mark.line != start_mark.line() => {
+                    let mut contents = trailing_breaks;
+                    if self.mark.col > 0 {
+                        contents.push('\n');
+                    }
+                    contents
+                }
+                // Otherwise there is no content and no trailing line is kept: when stripping or
+                // clipping, or when there was no newline after the chomping indicator.
+                _ => String::new(),
             };
             return Ok(Token(
                 Span::new(start_mark, self.mark),
